@@ -13,3 +13,37 @@ check('C07',
       TRUSTED + 'k>15 indices are compared as digit tuples because TLC integers are 32-bit.',
       'TLA+ spec (Nucleotide, KmerCodec) model-checked with TLC; TLC judges exhaustive call records of the real code',
       'DESIGN.md 5 (C07)')
+
+check('C01',
+      'Exhaustive TLC model check of the find_kmers + accumulate state machine (forward find with end=-k, restart at loc+1, '
+      'reverse find from start=k, reverse slice arithmetic) against the definitional signature SigDef for every sequence of '
+      'length <=5 (quick) / <=6 (thorough) over {A,C,G,T,N} and a mixed-case alphabet, k 1..3, five prefixes incl. palindromic and '
+      'self-overlapping ones, plus revcomp/case-invariance lemmas; conformance: TLC judges calc_signature records (4 input types x '
+      '3 accumulators, identical outputs judged once) on every sequence <=5 (quick) / <=7 (thorough) x 12 (k,prefix) pairs, a '
+      'mixed-case exhaustive family, find_kmers+kmer_index records, and seeded random inputs with planted matches over arbitrary '
+      'bytes, k up to 32: dtype, strict order and set equality with SigDef.',
+      TRUSTED + 'Sequences longer than 5000 nt are not explored.',
+      'TLA+ spec (KmerSig definition vs KmerSearch algorithm) model-checked with TLC; TLC judges call records of the real code',
+      'DESIGN.md 5 (C01)')
+
+check('C02',
+      'Exhaustive TLC model check of the two-pointer merge (one action per loop iteration, tail accounting, single float32 '
+      'division modelled by exact long division) against |A xor B|/|A or B| for all ordered pairs of subsets of a 5/6-element '
+      'universe, with the loop invariant; conformance: TLC judges jaccarddist/jaccard records (both argument orders) for every '
+      'ordered pair of subsets of a 4 (quick) / 6 (thorough) element universe x all 36 dtype pairs x placements at the bottom, '
+      'top of the narrower range and straddling it, plus seeded random sets up to 50,000 elements: bit-exact float32 quotient, '
+      'index == 1 - distance exactly.',
+      TRUSTED + 'Sets with >= 2^24 elements are not explored (the statement limits bit-exactness to < 2^24).',
+      'TLA+ spec (Jaccard, JaccardMerge, exact float32 quotient) model-checked with TLC; TLC judges call records bit-for-bit',
+      'DESIGN.md 5 (C02)')
+
+check('C15',
+      'TLC evaluates the metric axioms (range, zero iff equal, one iff disjoint non-empty, symmetry, triangle with slack 2^-22 in '
+      '48-bit fixed point, strict decrease under common augmentation) for ALL triples of subsets of a 4 (quick) / 5 (thorough) '
+      'element universe on the specification, and model-checks that the merge algorithm computes that distance; conformance: TLC '
+      'judges the six reported float32 distances, two widened-dtype variants and the augmented pair of every ordered triple of '
+      'subsets (x 3/6 dtype assignments) and of seeded random large triples: every axiom on the reported values and every value '
+      'against the correctly rounded ratio.',
+      TRUSTED + '"strictly decreases" is read for A != B (it contradicts "0 exactly when equal" otherwise).',
+      'TLA+ spec (Jaccard axioms) checked exhaustively by TLC; TLC judges reported distances of the real code',
+      'DESIGN.md 5 (C15)')
